@@ -208,6 +208,15 @@ def cases(tier, rng, dist, focus=None):
         xs[rng.randrange(nx)] = rng.choice([9, 14, -7]); ys[rng.randrange(ny)] = rng.choice([14, 9, -5])
         yield {"f": "real", "fn": "two_sample_shift", "x": xs, "y": ys, "stat": "t" if k % 4 else "mean", "alt": rng.choice(ALTS),
                "reps": 60, "plus1": rng.random() < 0.5, "seed": 2 * rng.randint(0, 10**5), "gseed": rng.randint(0, 10**6)}
+    # SEQUENCES of calls sharing one generator instance: every call must continue the stream where the previous one
+    # left it and behave exactly as it does alone on the answers it consumed (no restart, no skipped or extra draws, no
+    # dependence on what the earlier calls computed); the shared objects (data arrays) are the same across the calls
+    for _ in range(30 if tier == "quick" else 300):
+        n = rng.randint(3, 6)
+        data = [rng.randint(-4, 4) for _ in range(2 * n)]
+        steps = [rng.choice(["two_sample", "one_sample", "k_sample", "corr", "permute", "pwg", "s2s", "biv", "rows", "two_sample"]) for _ in range(rng.randint(2, 4))]
+        yield {"f": "seq", "steps": steps, "data": data, "n": n, "reps": rng.randint(1, 3), "gen": rng.choice(["tape", "tape", "sha", "rs"]),
+               "seed": rng.randint(0, 10**6), "aseed": rng.randint(0, 10**9), "keep": rng.random() < 0.7}
     # long samples: every unit must be reachable by the randomization ("every sign assignment / every allocation equally
     # likely ... all sample sizes"): with 64 repetitions each unit is flipped / allocated to either side at least once
     # except with probability 2^-63 per unit under a uniform generator (real seeds; arguments recorded)
@@ -307,7 +316,127 @@ def run(c):
         return run_prng(c)
     if f == "coverage":
         return run_coverage(c)
+    if f == "seq":
+        return run_seq(c)
     return run_real(c)
+
+
+def seq_call(step, c, gen, x, y, g, m):
+    """one call of a sequence; returns a JSON-able summary (results + what the recording statistic saw)"""
+    from permute import stratified as _st
+    rec = []
+    kw = dict(reps=c["reps"], seed=gen)
+    if step == "two_sample":
+        def st(u, v):
+            rec.append([[float(z) for z in u], [float(z) for z in v]]); return float(np.sum(u) - np.sum(v))
+        r = core.two_sample(x, y, stat=st, keep_dist=c["keep"], **kw)
+        return [float(r[0]), float(r[1])] + ([[float(v) for v in r[2]]] if c["keep"] else []) + [rec]
+    if step == "one_sample":
+        def st1(u):
+            rec.append([float(z) for z in u]); return float(np.sum(u))
+        r = core.one_sample(x, stat=st1, keep_dist=c["keep"], **kw)
+        return [float(r[0]), float(r[1])] + ([[float(v) for v in r[2]]] if c["keep"] else []) + [rec]
+    if step == "k_sample":
+        def stk(xx, gg, xbar):
+            rec.append([int(z) for z in gg]); return float(np.sum(np.asarray(xx)[np.asarray(gg) == gg[0]]))
+        r = ksample.k_sample(x, g, stat=stk, keep_dist=c["keep"], **kw)
+        return [float(r[0]), float(r[1])] + ([[float(v) for v in r[2]]] if c["keep"] else []) + [rec]
+    if step == "corr":
+        xx = x + np.arange(len(x)) * 0.25
+        r = core.corr(xx, y[:len(x)] * 1.0 + np.arange(len(x))[::-1] * 0.5, reps=c["reps"], seed=gen)
+        return [float(r[0]), float(r[1]), [float(v) for v in r[2]]]
+    if step == "permute":
+        return [[float(v) for v in utils.permute(x, gen)]]
+    if step == "pwg":
+        return [[float(v) for v in utils.permute_within_groups(x, g, gen)]]
+    if step == "rows":
+        return [np.asarray(utils.permute_rows(m, gen)).tolist()]
+    if step == "s2s":
+        def sts(u):
+            rec.append([float(z) for z in u]); return float(u[0] - u[-1])
+        cond = np.array([i % 2 for i in range(len(x))])
+        r = _st.stratified_two_sample(g, cond, x, stat=sts, keep_dist=c["keep"], **kw)
+        return [float(r[0]), float(r[1])] + ([[float(v) for v in r[2]]] if c["keep"] else []) + [rec]
+    def stb(xx, g1, g2, xbar):
+        rec.append([int(z) for z in g2]); return float(np.sum(np.asarray(xx)[np.asarray(g2) == g2[0]]))
+    g2 = np.array([i % 2 for i in range(len(x))])
+    r = ksample.bivariate_k_sample(x, g, g2, stat=stb, keep_dist=c["keep"], **kw)
+    return [float(r[0]), float(r[1])] + ([[float(v) for v in r[2]]] if c["keep"] else []) + [rec]
+
+
+def run_seq(c):
+    import random as _r
+    n = c["n"]
+    def fresh_data():
+        x = np.array(c["data"][:n], dtype=float); y = np.array(c["data"][n:], dtype=float)
+        g = np.array([i % 2 for i in range(n)]); m = np.array(c["data"]).reshape(2, n)
+        return x, y, g, m
+    x, y, g, m = fresh_data()
+    snap0 = snapshot(x, y, g, m)
+    out = {"seq": [], "alone": [], "windows": []}
+    if c["gen"] == "tape":
+        gen = Tape(None, lazy(_r.Random(c["aseed"]), "random"))
+        for st in c["steps"]:
+            k0 = len(gen.log)
+            r = guarded(lambda: seq_call(st, c, gen, x, y, g, m))
+            out["seq"].append(list(r)); out["windows"].append([a for (_, a) in gen.log[k0:]])
+        out["unmodified"] = snapshot(x, y, g, m) == snap0
+        # each call ALONE: fresh arrays, a fresh replay tape holding exactly the answers of its window
+        for st, w in zip(c["steps"], out["windows"]):
+            x2, y2, g2, m2 = fresh_data()
+            t2 = Tape(list(w))
+            r = guarded(lambda: seq_call(st, c, t2, x2, y2, g2, m2))
+            out["alone"].append(list(r) + [len(t2.answers)])
+        return out
+    # real generators: the same instance passed to every call, against a second instance in the same starting state
+    # given to the same calls on fresh arrays, and against fresh-instance-per-call runs for the FIRST call only
+    mk = (lambda: SHA256(c["seed"])) if c["gen"] == "sha" else (lambda: np.random.RandomState(c["seed"] % 2**32))
+    gen = mk()
+    for st in c["steps"]:
+        out["seq"].append(list(guarded(lambda: seq_call(st, c, gen, x, y, g, m))))
+    out["unmodified"] = snapshot(x, y, g, m) == snap0
+    gen2 = mk()
+    for st in c["steps"]:
+        x2, y2, g2, m2 = fresh_data()
+        out["alone"].append(list(guarded(lambda: seq_call(st, c, gen2, x2, y2, g2, m2))))
+    x3, y3, g3, m3 = fresh_data()
+    out["first_fresh"] = list(guarded(lambda: seq_call(c["steps"][0], c, mk(), x3, y3, g3, m3)))
+    # two equal consecutive calls must NOT repeat each other's randomization when the design has more than one arrangement
+    if len(c["steps"]) >= 2 and c["steps"][0] == c["steps"][1] and c["steps"][0] in ("permute", "pwg", "rows"):
+        gen4 = mk(); xs = np.arange(40.0); gs = np.array([i % 2 for i in range(40)]); ms = np.arange(80).reshape(2, 40)
+        a = guarded(lambda: seq_call(c["steps"][0], c, gen4, xs, xs, gs, ms)); b = guarded(lambda: seq_call(c["steps"][0], c, gen4, xs, xs, gs, ms))
+        out["repeat40"] = [list(a), list(b)]
+    return out
+
+
+def oracle_seq(c, o):
+    for k, r in enumerate(o["seq"]):
+        if r[0] != "ok":
+            return {"why": f"call {k} ({c['steps'][k]}) of a sequence sharing one generator raised {r}", "cls": "sequence:raises"}
+    if not o.get("unmodified", True):
+        return {"why": f"a sequence of calls {c['steps']} modified the caller's arrays", "cls": "sequence:input-modified"}
+    if c["gen"] == "tape":
+        for k, (r, a, w) in enumerate(zip(o["seq"], o["alone"], o["windows"])):
+            if a[0] != "ok":
+                return {"why": f"call {k} ({c['steps'][k]}) alone on the {len(w)} answers it consumed in the sequence {c['steps']} raised {a[:3]}: in the sequence it used draws it does not use alone", "cls": "sequence:irreproducible"}
+            if a[-1] != 0:
+                return {"why": f"call {k} ({c['steps'][k]}) alone leaves {a[-1]} of the {len(w)} answers it consumed inside the sequence {c['steps']}", "cls": "sequence:irreproducible"}
+            if not same_result(r[1], a[1]):
+                return {"why": f"call {k} ({c['steps'][k]}) of the sequence {c['steps']} sharing one generator returned {str(r[1])[:200]}, alone on the same answers {str(a[1])[:200]}", "cls": "sequence:irreproducible"}
+            if not w and c["steps"][k] != "permute" and c["n"] > 1:
+                return {"why": f"call {k} ({c['steps'][k]}) of the sequence consumed no answer from the shared generator", "cls": "sequence:irreproducible"}
+        return None
+    for k, (r, a) in enumerate(zip(o["seq"], o["alone"])):
+        if a[0] != "ok" or not same_result(r[1], a[1]):
+            return {"why": f"sequence {c['steps']} on one {c['gen']} generator: call {k} returned {str(r[1])[:160]}, a second generator in the same starting state gives {str(a[1:])[:160]}", "cls": "sequence:irreproducible"}
+    ff = o["first_fresh"]
+    if ff[0] != "ok" or not same_result(ff[1], o["seq"][0][1]):
+        return {"why": f"first call ({c['steps'][0]}) with a fresh {c['gen']} generator differs from the same call at the head of a sequence", "cls": "sequence:irreproducible"}
+    if "repeat40" in o:
+        a, b = o["repeat40"]
+        if a[0] == "ok" and b[0] == "ok" and same_result(a[1], b[1]):
+            return {"why": f"two consecutive {c['steps'][0]} calls on one {c['gen']} generator instance returned the same rearrangement of 40 units: the instance was not advanced", "cls": "sequence:irreproducible"}
+    return None
 
 
 def run_coverage(c):
@@ -1106,7 +1235,7 @@ def oracle_real(c, o):
 
 def oracle(c, o):
     return {"two_sample": oracle_two, "one_sample": oracle_one, "corr": oracle_corr, "k_sample": oracle_k, "permute": oracle_permute,
-            "pot": oracle_pot, "real": oracle_real, "prng": oracle_prng, "coverage": oracle_coverage}[c["f"]](c, o)
+            "pot": oracle_pot, "real": oracle_real, "prng": oracle_prng, "coverage": oracle_coverage, "seq": oracle_seq}[c["f"]](c, o)
 
 
 def nontrivial(c, o):
